@@ -158,3 +158,24 @@ PROPS["C12"] = dict(
                          Bounds={"quick": "BoundsQuick", "thorough": "BoundsThorough"})),
     ],
 )
+
+_sample_note = ("Trusted: TLC, binder comparison code and tolerances (location results: max(1e-12, 1024 n eps) max|x|; Variance: rel max(1e-9, 1024 n eps kappa); "
+                "Quantile: 1e-12 of the data range), math.Pow/Log/Exp for GeoMean. Weighted samples whose weights are all zero, and weighted Variance/StdDev "
+                "(not implemented), are outside the statement.")
+_sample_consts = dict(MaxLen={"quick": 3, "thorough": 4}, WeightVals="{0,1,2}", Depth={"quick": 2, "thorough": 3}, MaxObjs={"quick": 2, "thorough": 3})
+PROPS["C09"] = dict(
+    family="sample", specdir="sample",
+    technique="TLA+ heap model of Sample objects (Sort relational, Copy with fresh store, queries as functions of the bag of (value, weight) pairs) enumerated by TLC over all small samples, weight vectors, Sorted flags and Sort/Copy histories; exact rational expectations replayed into stats.Sample and the slice functions under affine value maps and permutations",
+    level_text="TLC enumerates every sample of up to 3 (thorough 4) values over {-2,0,1,3}, unweighted or with every weight vector over {0,1,2} of positive total, both legitimate settings of Sorted, and every history of up to 2 (thorough 3) Sort/Copy operations; it checks that Sort keeps the pair bag and the store, that Copy never shares a store, and that integer weights mean repetition; each state carries the exact Mean, Variance, Sum, Weight and Bounds of every object; the binder replays the history on real Samples under 4 exact affine maps (offsets to 1e9) and random permutations, asks every query of every object with a snapshot before and after, and checks Sort/Copy relationally (ascending, pair bag, same / disjoint storage)",
+    level_note=_sample_note,
+    stages=[dict(name="gen", kind="gen", module="Sample.tla", cfg="Sample_gen.cfg", consts=_sample_consts,
+                 replay_args=["-notwhat", "Quantile,IQR"])],
+)
+PROPS["C10"] = dict(
+    family="sample", specdir="sample",
+    technique="TLA+ definition of the Hyndman-Fan type 8 quantile (exact rationals, clamped) and of the weighted quantile (admissible set at exact cumulative-weight ties with non-dyadic q), with monotonicity and range laws checked by TLC; replayed into Sample.Quantile / IQR on every object of the Sort/Copy histories",
+    level_text="For every enumerated sample (as C09) and every level q in {-1/2, 0, k/16, 1/3, 2/3, the R8 break points (3k-1)/(3n+1), 1, 3/2} TLC computes the exact type-8 quantile (weighted: the first value whose cumulative weight exceeds qW) and checks range and monotonicity in q; the binder compares Sample.Quantile on sorted, unsorted, flagged and copied objects under affine maps and permutations, checks monotonicity of the returned values, IQR = Q(3/4) - Q(1/4), and that the sample is bit-identical after every query",
+    level_note=_sample_note,
+    stages=[dict(name="gen", kind="gen", module="Sample.tla", cfg="Sample_gen.cfg", consts=_sample_consts,
+                 replay_args=["-what", "Quantile,IQR,query-modifies,Sort"])],
+)
